@@ -93,6 +93,27 @@ func runP7Sym(sc M) {
 			d.AuthInfo.CertData = bare
 			return d.Verify(cert)
 		})
+		run("desc-buffer-reused", func() (bool, error) {
+			// the descriptor is decoded from a caller's buffer; the caller then reuses that buffer for an honest update
+			mk := func(sig []byte) []byte {
+				var w bytes.Buffer
+				w.Write(timeBytes("typical"))
+				w.Write(le32(uint32(24 + len(sig))))
+				w.Write([]byte{0x00, 0x02, 0xf1, 0x0e})
+				w.Write(wire(map[string]string{"g": pkcs7GUIDWire}, "g"))
+				w.Write(sig)
+				return w.Bytes()
+			}
+			src := bytes.NewBuffer(mk(bare))
+			var d signature.EFIVariableAuthentication2
+			if err := d.Unmarshal(src); err != nil {
+				return false, err
+			}
+			honest := buildSymBlob("data", "none", []symSigner{{Sid: str(sc, "cert"), SigKey: map[string]string{"A": "k1", "B": "k2", "At": "k2"}[str(sc, "cert")], SigOver: "attrs_as_encoded", Attrs: "present", CT: "data", MD: "m1", Order: "canonical"}}, "signer", false, dg)
+			src.Reset()
+			src.Write(mk(honest))
+			return d.Verify(cert)
+		})
 		// one parsed object verified against several certificates in turn: every verdict must be the one a fresh
 		// parse gives for that certificate (no state may leak from one verification into the next)
 		callStart(id, "p7-shared", nil)
